@@ -22,6 +22,7 @@ import (
 	"sort"
 	"strings"
 	"sync"
+	"sync/atomic"
 	"time"
 
 	pkglint "github.com/rillig/pkglint/v23"
@@ -198,11 +199,14 @@ const c10mkCrash = "CRASH"
 
 // c10mkRunShard answers reqs[lo:hi] into out; a request that gets no answer within
 // `limit` is answered HANG (worker killed), a worker that dies is answered CRASH.
-func c10mkRunShard(reqs []string, out []string, lo, hi int, limit time.Duration) error {
+// workers killed or dead so far, in the whole run; hangs whose layer was looked up
+var c10mkDeaths, c10mkLocated int64
+
+func c10mkRunShard(reqs []string, out []string, lo, hi int, limit time.Duration, budget bool) error {
 	pos := lo
 	deaths := 0
 	for pos < hi {
-		if deaths > 40 { // a mutation that hangs everywhere: do not spend the whole budget on it
+		if budget && (deaths > 1 || atomic.LoadInt64(&c10mkDeaths) > 6) { // a mutation that hangs everywhere: do not spend the whole budget on it
 			for ; pos < hi; pos++ {
 				out[pos] = "SKIPPED"
 			}
@@ -264,9 +268,15 @@ func c10mkRunShard(reqs []string, out []string, lo, hi int, limit time.Duration)
 			out[pos] = verdict
 			pos++
 			deaths++
+			atomic.AddInt64(&c10mkDeaths, 1)
 		}
 	}
 	return nil
+}
+
+// c10mkRunOne: one request on a worker of its own, outside the budget of the run
+func c10mkRunOne(req string, out []string, limit time.Duration) {
+	c10mkRunShard([]string{req}, out, 0, 1, limit, false)
 }
 
 func c10mkRunImpl(reqs []string, limit time.Duration) ([]string, error) {
@@ -289,7 +299,7 @@ func c10mkRunImpl(reqs []string, limit time.Duration) ([]string, error) {
 		wg.Add(1)
 		go func(w, lo, hi int) {
 			defer wg.Done()
-			errs[w] = c10mkRunShard(reqs, out, lo, hi, limit)
+			errs[w] = c10mkRunShard(reqs, out, lo, hi, limit, true)
 		}(w, lo, hi)
 	}
 	wg.Wait()
@@ -563,10 +573,10 @@ func (j *c10mkJudge) locate(in string) map[string]string {
 	}
 	for i, sec := range c10mkSections {
 		ans := make([]string, 1)
-		c10mkRunShard(reqs[i:i+1], ans, 0, 1, j.limit)
+		c10mkRunOne(reqs[i], ans, j.limit)
 		if ans[0] == c10mkHang || ans[0] == c10mkCrash {
 			// confirm once: "hang" = watchdog expiry twice
-			c10mkRunShard(reqs[i:i+1], ans, 0, 1, j.limit)
+			c10mkRunOne(reqs[i], ans, j.limit)
 		}
 		if _, v, ok := strings.Cut(ans[0], "="); ok {
 			out[sec] = v
@@ -581,6 +591,10 @@ func (j *c10mkJudge) judge(c c10mkCase, implLine, modelLine string, cnt map[stri
 	res := j.res
 	var impl map[string]string
 	if implLine == c10mkHang || implLine == c10mkCrash {
+		if atomic.AddInt64(&c10mkLocated, 1) > 3 {
+			cnt["hangs_or_crashes_not_looked_up"]++
+			return
+		}
 		impl = j.locate(c.in)
 	} else if implLine == "SKIPPED" {
 		cnt["skipped_after_many_hangs"]++
@@ -1194,7 +1208,7 @@ func runC10mk(ctx *Ctx) *Result {
 		"each input goes through MkTokens, Expr, Varname, tokenize, MkTokensLexer, unescapeComment, split (both modes), VaralignSplitter.split (both modes) and matchVarassign; " +
 		"non-trivial = an input on which MkTokens yields an expression, two or more tokens or a non-empty rest, or that has a comment or an escaped #, or that is accepted as a variable assignment; distinct by input bytes"}
 	thorough := ctx.Tier == "thorough"
-	j := &c10mkJudge{ctx: ctx, res: res, seen: map[uint64]struct{}{}, limit: 4 * time.Second}
+	j := &c10mkJudge{ctx: ctx, res: res, seen: map[uint64]struct{}{}, limit: 3 * time.Second}
 	if thorough {
 		j.limit = 20 * time.Second
 	}
@@ -1206,7 +1220,7 @@ func runC10mk(ctx *Ctx) *Result {
 	}
 
 	// corpus: inputs that once mattered
-	corpus := []string{"A.\\#=v", "X= ${VAR:!echo $$x!}", "${A:!$", "${A:!a$$!}", "${A:x${A:x${A:x${A:x}}}}", "a$", "$", "$$", "${", "$(", "${}", "${:}", "${A:S}",
+	corpus := []string{"A.\\#=v", " \t#x", "A.\\#\\#b${c}\\# =v", "X= ${VAR:!echo $$x!}", "${A:!$", "${A:!a$$!}", "${A:x${A:x${A:x${A:x}}}}", "a$", "$", "$$", "${", "$(", "${}", "${:}", "${A:S}",
 		"${A:S,a,b,S,c,d,}", "${A:S=x}", "${A:ts}", "${A:ts:}", "${A:@v@$v@}", "${A:[#]}", "${A::=x}", "${:!x!}", "#A=v", "# A=v", " A=v", "A=v # c", "A=\\#x #y", "A= [#] #c",
 		"A=v\\", "A=v \\\\", "\tA=v", "A+=v", "A+ =v", "A =v", "SITES_a.b=c", "A=#", "A= #", "A=\\"}
 	var cs []c10mkCase
